@@ -18,7 +18,7 @@ RULE_KINDS = {
     "framing/": "structural", "dispatch/": "structural", "who-may-write/": "structural", "do_DATA/": "structural", "client/sendline-verbatim": "structural",
     "wiring/": "structural", "filesender-cfg/": "structural", "reader-cfg/": "structural",
     "reader-guards/": "finite-exhaustive",        # guard sets of the normalised handler over the complete set of line classes (domain argument checked)
-    "stuffing/": "finite-exhaustive", "chunk/": "finite-exhaustive", "terminator/": "finite-exhaustive",
+    "stuffing/": "finite-exhaustive", "chunk/": "finite-exhaustive", "chunk/state-reset-per-message": "structural", "terminator/": "finite-exhaustive",
     "stuffing/writer-semantics (bounded)": "bounded", "terminator/emitted-on-own-line (bounded)": "bounded",
     "client/": "bounded", "filesender/": "bounded", "reader/": "bounded",
 }
@@ -338,6 +338,17 @@ def _struct_wiring(ctx, cn, name):
         raise Abstain("callbacks chained to the transfer Deferred are not plain client methods")
     ctx.check(bool(mine), "wiring/finisher-chained", q + " | callback on the transfer Deferred",
               "nothing is chained to the Deferred returned by beginFileTransfer: the terminating '.' line is never sent")
+    if tr is not None and is_self_attr(tr):
+        tdefs = _definitions(ctx, CLIENT_CLASSES, tr.attr)
+        state = sorted({t.attr for _, tf in tdefs for st in statements(tf) for t in _targets(st) if is_self_attr(t)})
+        g = ctx.cfg(f)
+        starts = g.find(lambda x: isinstance(x, ast.Call) and call_attr(x) == "beginFileTransfer")
+        for s_ in state:
+            resets = g.ids(lambda n, s_=s_: n.kind == "stmt" and isinstance(n.ast, ast.Assign) and any(is_self_attr(t, s_) for t in n.ast.targets))
+            wit = g.must_precede(resets, starts) if starts else None
+            ctx.check(bool(resets) and wit is None, "chunk/state-reset-per-message", f"{q} | self.{s_} before the transfer starts",
+                      f"the transformer carries self.{s_} from chunk to chunk, but {name} does not set it before starting the transfer: the second message on a connection starts "
+                      "with whatever the first one left (a leading '.' is then not stuffed, or a mid-line one is)", witness=g.describe(wit))
     return (tr.attr if tr is not None and is_self_attr(tr) else None), [c.args[0].attr for c in mine]
 
 
@@ -835,11 +846,9 @@ def check(ctx):
         _check_do_data(ctx)
 
 
-_TC = '        return chunk.replace(b"\\n", b"\\r\\n").replace(b"\\r\\n.", b"\\r\\n..")\n'
 MUTANTS = [
-    Mutant("stuff-before-newline-conversion", SMTP, _TC, '        return chunk.replace(b"\\r\\n.", b"\\r\\n..").replace(b"\\n", b"\\r\\n")\n',
-           expect_rule="stuffing/writer-semantics"),
-    Mutant("stuff-every-dot", SMTP, _TC, '        return chunk.replace(b"\\n", b"\\r\\n").replace(b".", b"..")\n', expect_rule="stuffing/writer-semantics"),
+    Mutant('stuff-before-newline-conversion', SMTP, '        chunk = chunk.replace(b"\\n", b"\\r\\n").replace(b"\\r\\n.", b"\\r\\n..")\n', '        chunk = chunk.replace(b"\\r\\n.", b"\\r\\n..").replace(b"\\n", b"\\r\\n")\n', expect_rule='stuffing/writer-semantics'),
+    Mutant('stuff-every-dot', SMTP, '        chunk = chunk.replace(b"\\n", b"\\r\\n").replace(b"\\r\\n.", b"\\r\\n..")\n', '        chunk = chunk.replace(b"\\n", b"\\r\\n").replace(b".", b"..")\n', expect_rule='stuffing/writer-semantics'),
     Mutant("finish-condition-inverted", SMTP, '        if lastsent != b"\\n":\n            line = b"\\r\\n."\n', '        if lastsent == b"\\n":\n            line = b"\\r\\n."\n',
            expect_rule="terminator/emitted-on-own-line"),
     Mutant("finish-compares-str", SMTP, '        if lastsent != b"\\n":\n', '        if lastsent != "\\n":\n', expect_rule="terminator/emitted-on-own-line"),
@@ -865,30 +874,17 @@ MUTANTS = [
            "        self.lastSent = chunk[-1:]\n        if self.transform:\n            chunk = self.transform(chunk)\n        self.consumer.write(chunk)\n", expect_rule="filesender/last-byte"),
     Mutant("transform-only-first-chunk", BASIC, "        if self.transform:\n            chunk = self.transform(chunk)\n", "        if self.transform and not self.lastSent:\n            chunk = self.transform(chunk)\n",
            expect_rule="filesender/transform-every-chunk"),
-    Mutant("stateful-repair-wrong-state", SMTP, _TC,
-           '        chunk = chunk.replace(b"\\n", b"\\r\\n").replace(b"\\r\\n.", b"\\r\\n..")\n'
-           '        if self._atLineStart and chunk[:1] == b".":\n            chunk = b"." + chunk\n'
-           '        self._atLineStart = chunk[-1:] != b"\\n"\n        return chunk\n',
-           more=[(SMTP, "    ## Helpers for FileSender\n    ##\n", "    ## Helpers for FileSender\n    ##\n    _atLineStart = True\n\n")],
-           expect_rule="stuffing/writer-semantics"),
-    Mutant("regex-stuffing-anchored-at-chunk-start", SMTP, _TC,
-           '        chunk = self._lineStartDot.sub(b"..", chunk)\n        return chunk.replace(b"\\n", b"\\r\\n")\n',
-           more=[(SMTP, "    ## Helpers for FileSender\n    ##\n", "    ## Helpers for FileSender\n    ##\n    _lineStartDot = re.compile(rb\"^\\.\", re.MULTILINE)\n\n")],
-           expect_rule="stuffing/writer-semantics"),
+    Mutant('F40-revert-chunk-initial-period-not-stuffed', SMTP, '        if self._bodyAtLineStart and chunk[:1] == b".":\n            chunk = b"." + chunk\n', '', expect_rule='chunk/stateful-context'),
+    Mutant('line-start-flag-inverted', SMTP, '            self._bodyAtLineStart = chunk[-1:] == b"\\n"\n', '            self._bodyAtLineStart = chunk[-1:] != b"\\n"\n', expect_rule='stuffing/writer-semantics'),
+    Mutant('line-start-flag-not-reset-per-message', SMTP, '        self._bodyAtLineStart = True\n        s = basic.FileSender()\n', '        s = basic.FileSender()\n', expect_rule='chunk/state-reset-per-message'),
+    Mutant('regex-stuffing-anchored-at-chunk-start', SMTP, '        chunk = chunk.replace(b"\\n", b"\\r\\n").replace(b"\\r\\n.", b"\\r\\n..")\n', '        chunk = self._lineStartDot.sub(b"..", chunk).replace(b"\\n", b"\\r\\n")\n', more=[(SMTP, '    ## Helpers for FileSender\n    ##\n', '    ## Helpers for FileSender\n    ##\n    _lineStartDot = re.compile(rb"^\\.", re.MULTILINE)\n\n')], expect_rule='stuffing/writer-semantics'),
     Mutant("refused-line-leaves-data-mode", SMTP, "            self.datafailed = e\n            for message in self.__messages:\n                message.connectionLost()\n",
            "            self.datafailed = e\n            self.mode = COMMAND\n            for message in self.__messages:\n                message.connectionLost()\n", expect_rule="reader/terminator"),
     Mutant("header-state-not-reset", SMTP, "        self.__inheader = self.__inbody = 0\n        self.sendCode(354", "        self.__inbody = 0\n        self.sendCode(354", expect_rule="do_DATA/armed-before-354"),
 ]
 SILENT = [
-    Silent("f40-repaired-stateful-transform", SMTP, _TC,
-           '        chunk = chunk.replace(b"\\n", b"\\r\\n").replace(b"\\r\\n.", b"\\r\\n..")\n'
-           '        if self._atLineStart and chunk[:1] == b".":\n            chunk = b"." + chunk\n'
-           '        self._atLineStart = chunk[-1:] == b"\\n"\n        return chunk\n',
-           more=[(SMTP, "    ## Helpers for FileSender\n    ##\n", "    ## Helpers for FileSender\n    ##\n    _atLineStart = True\n\n")]),
-    Silent("regex-stuffing-line-start-aware-across-chunks", SMTP, _TC,
-           '        pad = b"" if self._atLineStart else b"x"\n        out = self._lineStartDot.sub(b"..", pad + chunk)[len(pad):]\n'
-           '        self._atLineStart = chunk[-1:] == b"\\n"\n        return out.replace(b"\\n", b"\\r\\n")\n',
-           more=[(SMTP, "    ## Helpers for FileSender\n    ##\n", "    ## Helpers for FileSender\n    ##\n    _lineStartDot = re.compile(rb\"^\\.\", re.MULTILINE)\n    _atLineStart = True\n\n")]),
+    Silent('line-start-flag-by-endswith', SMTP, '            self._bodyAtLineStart = chunk[-1:] == b"\\n"\n', '            self._bodyAtLineStart = chunk.endswith(b"\\n")\n'),
+    Silent('regex-stuffing-line-start-aware-across-chunks', SMTP, '        chunk = chunk.replace(b"\\n", b"\\r\\n").replace(b"\\r\\n.", b"\\r\\n..")\n        # The period which starts the message, or which starts a chunk right\n        # after a line ending, has no preceding newline within this chunk.\n        if self._bodyAtLineStart and chunk[:1] == b".":\n            chunk = b"." + chunk\n        if chunk:\n            self._bodyAtLineStart = chunk[-1:] == b"\\n"\n        return chunk\n', '        pad = b"" if self._bodyAtLineStart else b"x"\n        out = self._lineStartDot.sub(b"..", pad + chunk)[len(pad):]\n        if chunk:\n            self._bodyAtLineStart = chunk[-1:] == b"\\n"\n        return out.replace(b"\\n", b"\\r\\n")\n', more=[(SMTP, '    ## Helpers for FileSender\n    ##\n', '    ## Helpers for FileSender\n    ##\n    _lineStartDot = re.compile(rb"^\\.", re.MULTILINE)\n\n')]),
     Silent("filesender-chunk-writer-extracted", BASIC, "        if self.transform:\n            chunk = self.transform(chunk)\n        self.consumer.write(chunk)\n        self.lastSent = chunk[-1:]\n",
            "        self._emit(chunk)\n\n    def _emit(self, chunk):\n        convert = self.transform\n        if convert:\n            chunk = convert(chunk)\n        self.consumer.write(chunk)\n        self.lastSent = chunk[-1:]\n"),
     Silent("data-state-named-temporaries", SMTP, "        d = s.beginFileTransfer(self.getMailData(), self.transport, self.transformChunk)\n",
@@ -899,7 +895,7 @@ SILENT = [
                   "    def _leaveDataMode(self):\n        self.mode = COMMAND\n\n    state_DATA = dataLineReceived\n"),
                  (SMTP, "                self.mode = COMMAND\n                if self.datafailed:\n", "                self._leaveDataMode()\n                if self.datafailed:\n")]),
     Silent("reader-startswith-and-inverted-test", SMTP, '        if line[:1] == b".":\n            if line == b".":\n', '        if line.startswith(b"."):\n            if not line != b".":\n'),
-    Silent("stuff-then-convert", SMTP, _TC, '        return chunk.replace(b"\\n.", b"\\n..").replace(b"\\n", b"\\r\\n")\n'),
+    Silent('stuff-then-convert', SMTP, '        chunk = chunk.replace(b"\\n", b"\\r\\n").replace(b"\\r\\n.", b"\\r\\n..")\n', '        chunk = chunk.replace(b"\\n.", b"\\n..").replace(b"\\n", b"\\r\\n")\n'),
     Silent("finish-branches-swapped", SMTP, '        if lastsent != b"\\n":\n            line = b"\\r\\n."\n        else:\n            line = b"."\n',
            '        if lastsent == b"\\n":\n            line = b"."\n        else:\n            line = b"\\r\\n."\n'),
     Silent("filesender-rename-local", BASIC, "        if self.transform:\n            chunk = self.transform(chunk)\n        self.consumer.write(chunk)\n        self.lastSent = chunk[-1:]\n",
